@@ -304,11 +304,18 @@ fn build_command(
         command.stdin(Stdio::null());
     }
 
-    if let Output::Named(output) = output_conf {
-        command.stdout(Stdio::null());
-        create_named_pipe(output)?;
-    } else {
-        command.stdout(Stdio::piped());
+    match output_conf {
+        Output::Named(output) => {
+            command.stdout(Stdio::null());
+            create_named_pipe(output)?;
+        }
+        // nobody reads the standard output of a program that transforms its input in place
+        Output::InPlace(_) => {
+            command.stdout(Stdio::null());
+        }
+        Output::StdOut => {
+            command.stdout(Stdio::piped());
+        }
     }
 
     Ok(command)
